@@ -7,6 +7,13 @@ from jinja2 import Environment, Template, meta
 from streamflow.core.exception import WorkflowDefinitionException
 
 
+def _escape_double_quoted(value: str) -> str:
+    # Escape the characters that keep a special meaning between double quotes
+    for char in ("\\", '"', "$", "`"):
+        value = value.replace(char, "\\" + char)
+    return value
+
+
 def _check_template(name: str, source: str) -> None:
     ast = Environment(autoescape=True).parse(source)
     referenced_vars = meta.find_undeclared_variables(ast)
@@ -50,7 +57,10 @@ class CommandTemplateMap:
             streamflow_command=command,
             streamflow_environment=(
                 " && ".join(
-                    [f'export {key}="{value}"' for (key, value) in environment.items()]
+                    [
+                        f'export {key}="{_escape_double_quoted(value)}"'
+                        for (key, value) in environment.items()
+                    ]
                 )
                 if environment is not None
                 else ""
